@@ -17,8 +17,9 @@ pub fn mixf(lo: f64, hi: f64, special: Vec<f64>) -> BoxedStrategy<f64> {
         10 => (lo..=hi),
         1 => Just(lo),
         1 => Just(hi),
-        1 => (0.0..1.0e-12f64).prop_map(move |e| lo + e * span),
-        1 => (0.0..1.0e-12f64).prop_map(move |e| hi - e * span),
+        // within 1e-15 .. 1e-2 (log-uniform, relative to the range) of a bound
+        1 => (-15.0..-2.0f64).prop_map(move |e| lo + 10f64.powf(e) * span),
+        1 => (-15.0..-2.0f64).prop_map(move |e| hi - 10f64.powf(e) * span),
         1 => select(special),
     ]
     .boxed()
